@@ -484,9 +484,17 @@ func execNet(t *testing.T, raw json.RawMessage, res *Result, focus string) {
 			res.Invalid("bad op args")
 			return
 		}
+		clockBefore := n.Clock
 		n.Clock += time.Hour + time.Duration(op.Skew)*time.Hour
 		if n.Clock < 0 {
 			n.Clock = time.Hour
+		}
+		// simulated wall-clock covered: how far this node's clock was moved (forwards or backwards)
+		if d := n.Clock - clockBefore; d >= 0 {
+			res.stat("sim_time_s", d.Seconds())
+		} else {
+			res.stat("sim_time_s", (-d).Seconds())
+			res.probe("clock_jumped_backwards", 1)
 		}
 		when := fmt.Sprintf("op %d %s %s %s", i, op.Node, op.Op, op.Branch)
 		refsBefore, _ := n.Refs()
